@@ -47,6 +47,9 @@ pub fn batch_mappings(batch_seed: u64, n: u64, corpus: bool, large: bool) -> (Ve
         let mut rng = Rng::new(run_seed(batch_seed, "C14.big", 0));
         let cfg = gen::GenCfg { max_classes: 420, max_members: 44, pct_long_name: 1, pct_noise: 1, class_pool: 16, ..gen::GenCfg::swarm(&mut rng, 10, 10) };
         v.push(gen::gen_mapping(&mut rng, &cfg));
+        // and one with wide classes (> 64 distinct methods per class)
+        let cfg = gen::GenCfg { max_classes: 6, max_members: 10, pct_wide_class: 60, class_pool: 16, ..gen::GenCfg::swarm(&mut rng, 10, 10) };
+        v.push(gen::gen_mapping(&mut rng, &cfg));
     }
     if corpus {
         for (_, b) in gen::corpus(large) {
